@@ -342,10 +342,19 @@ pub fn run_listen(c: &ListenCase) -> CaseResult {
     let mon = Monitor::new(true, Faults::none());
     let mut mr = MultiReceiver::new(mon.clone(), Some(spec.config()), false);
     let log = Rc::new(RefCell::new(vec![]));
-    mr.add_listener(Listener { log: log.clone() });
-    // a second listener registered alongside must see exactly the same events
     let log2 = Rc::new(RefCell::new(vec![]));
-    mr.add_listener(Listener { log: log2.clone() });
+    if c.ops.len() % 2 == 0 {
+        mr.add_listener(Listener { log: log.clone() });
+        // a second listener registered alongside must see exactly the same events
+        mr.add_listener(Listener { log: log2.clone() });
+    } else {
+        // listeners come and go before the traffic starts: add X, add A, remove X, add B - A and B stay
+        let gone = Rc::new(RefCell::new(vec![]));
+        let x = mr.add_listener(Listener { log: gone.clone() });
+        mr.add_listener(Listener { log: log.clone() });
+        mr.remove_listener(x);
+        mr.add_listener(Listener { log: log2.clone() });
+    }
     // model: which keys have a live session, expected event list
     let mut live: BTreeMap<usize, bool> = BTreeMap::new();
     let mut expected: Vec<(bool, usize)> = vec![];
@@ -407,6 +416,8 @@ pub fn run_listen(c: &ListenCase) -> CaseResult {
                         mr.cleanup(t0() + Duration::from_millis(t));
                         t += 1;
                     }
+                    mr.cleanup(t0() + Duration::from_millis(t));
+                    t += 1;
                     let ks: Vec<usize> = live.iter().filter(|(_, v)| **v).map(|(k, _)| *k).collect();
                     for k in ks {
                         live.insert(k, false);
@@ -423,6 +434,8 @@ pub fn run_listen(c: &ListenCase) -> CaseResult {
                     while std::time::Instant::now() < until {
                         mr.cleanup(t0() + Duration::from_millis(t));
                     }
+                    // (a thread that was descheduled for the whole window has not called cleanup at all)
+                    mr.cleanup(t0() + Duration::from_millis(t));
                     t += 1;
                     let ks: Vec<usize> = live.iter().filter(|(_, v)| **v).map(|(k, _)| *k).collect();
                     for k in ks {
